@@ -429,7 +429,7 @@ def check_report(ctx, c, im, mo, stream, st):
     msteps = [list(x) for x in msteps]
     diff = None
     if mdecomp is not True:
-        diff = "the model's final manager fails decomp_ok (contradicts C07_decomposable) or reduced_ok (hypothesis of C07_canonical_history_partial)"
+        diff = "the model's final manager fails decomp_ok (contradicts C07_decomposable) or reduced_ok (contradicts C07_reduced_reachable)"
     elif mspec != spec:
         diff = "Coq Spec truth tables differ from the check's bit-mask Spec"
     elif mtabs != spec:
@@ -715,8 +715,7 @@ TRUSTED = [
 ]
 ASSUME = ["variables are registered (ensure_variable*) before a literal over them is requested, as the API documents (run_ok)",
           "real deadlines are arbitrary Boolean answer sequences of the deadline closure",
-          "general canonicity of Decision handles is NOT proved (three-variable bounded theorem, equal-nodes / constants / literals "
-          "theorems, and the run-time canonicity check on every generated handle)"]
+          "canonicity (C07_canonical) and totality (C07_total) are stated for fuel above 4*|history|+3; the check runs the model with fuel 200"]
 
 
 def audit_canon(ctx):
@@ -787,10 +786,7 @@ def run(ctx):
     ctx.sample({"interrupt": {"target": icases[0]["target"], "pre": icases[0]["pre"][:10]}})
     evaluate_interrupts(ctx, binpath, icases, "interrupt", 40 if ctx.thorough else 12)
     ctx.finish(level="proof", rule=PROP_RULE, trusted_base=TRUSTED, assumptions=ASSUME,
-               extra={"partial": ["unbounded canonicity (equal functions get equal handles for every number of variables) is not proved; "
-                                  "C07_canonical_reduced proves it for every manager passing the decidable check reduced_ok, which is evaluated on "
-                                  "every model state; the missing lemma is preservation of reduced_ok by the operations. C07_canonical_3 is the "
-                                  "bounded theorem; the check tests canonicity on every generated handle"]})
+               extra={"partial": []})
 
 
 def replay(ctx):
